@@ -2,6 +2,11 @@ package sim
 
 import (
 	"math/rand/v2"
+	"strings"
+
+	authtypes "github.com/cosmos/cosmos-sdk/x/auth/types"
+	banktypes "github.com/cosmos/cosmos-sdk/x/bank/types"
+	govv1 "github.com/cosmos/cosmos-sdk/x/gov/types/v1"
 )
 
 // C07 runs on the worlds of several engines: the bridge engine with its C07 bias (aged
@@ -96,7 +101,7 @@ func (e C07Engine) Check(r *Run, s *Step, o *Outcome) []Violation {
 	}
 	if halt != nil {
 		r.Nontrivial = true
-		return []Violation{viol("no-halt", halt.Phase+":"+halt.Site, "%s: %s", halt.Phase, firstLine(halt.Msg))}
+		return []Violation{viol("no-halt", halt.Phase+":"+c07HaltSite(r, halt), "%s: %s", halt.Phase, firstLine(halt.Msg))}
 	}
 	name, _ := r.Cfg.Knob("c07_engine"), 0
 	if name == "bridge" || name == "" {
@@ -116,10 +121,39 @@ func (e C07Engine) Finish(r *Run) (vs []Violation) {
 	name := r.Cfg.Knob("c07_engine")
 	e.with(r, func(eng Engine) { vs = eng.Finish(r) })
 	if r.W != nil && r.W.Halt != nil {
-		return []Violation{viol("no-halt", r.W.Halt.Phase+":"+r.W.Halt.Site, "%s: %s", r.W.Halt.Phase, firstLine(r.W.Halt.Msg))}
+		return []Violation{viol("no-halt", r.W.Halt.Phase+":"+c07HaltSite(r, r.W.Halt), "%s: %s", r.W.Halt.Phase, firstLine(r.W.Halt.Msg))}
 	}
 	if name == "bridge" || name == "" {
 		return vs
 	}
 	return nil
+}
+
+// c07HaltSite refines the site of an error returned by block processing when its cause can be read
+// off the last committed state: a proposal that is still open (or was just decided) sends coins out
+// of the gov module account - the account that escrows every proposal's deposit - so the deposit
+// refund / burn of the end blocker can run short of funds.
+func c07HaltSite(r *Run, h *HaltInfo) string {
+	if h.Site != "error-return" || !strings.Contains(h.Msg, "insufficient funds") || r.W == nil {
+		return h.Site
+	}
+	ctx := r.W.Ctx()
+	gov := authtypes.NewModuleAddress("gov").String()
+	spends := false
+	_ = r.W.App.GovKeeper.Proposals.Walk(ctx, nil, func(_ uint64, p govv1.Proposal) (bool, error) {
+		msgs, err := p.GetMsgs()
+		if err != nil {
+			return false, nil
+		}
+		for _, m := range msgs {
+			if ms, ok := m.(*banktypes.MsgSend); ok && ms.FromAddress == gov {
+				spends = true
+			}
+		}
+		return spends, nil
+	})
+	if spends {
+		return "error-return/proposal-spends-from-the-gov-account-that-escrows-the-deposits"
+	}
+	return h.Site
 }
